@@ -527,7 +527,7 @@ func ubGenScript(r *Rng) []byte {
 		}
 		return append([]byte{0x6a}, r.Bytes(r.Intn(40))...)
 	case 4:
-		if r.Chance(20) {
+		if r.Chance(60) {
 			// both sides of maxScriptSize: 10000 bytes is spendable, 10001 is not
 			return append([]byte{0x00}, r.Bytes(9999+r.Intn(2))...)
 		}
